@@ -29,7 +29,7 @@ COMPONENTS = {'real': ['data/pipe_asdf.py unpack_to_pipe; asdf block reader; dat
 ASSUMPTIONS = ['wire format as documented in the module docstring: int64 count, int32 width, count*width bytes, per field',
                'count = number of primitive values (product of the shape), width = itemsize of the primitive dtype']
 
-DTYPES = ['u1', 'i2', 'f4', 'f8', 'u8', 'c16']
+DTYPES = ['u1', 'i2', 'f4', 'f8', 'u8', 'c16', '>f4', '>i8', '>u2']      # stored byte order is part of "raw bytes"
 
 
 class Sink:
@@ -105,6 +105,11 @@ def _array(col, rows, seed):
     dt = np.dtype(col['dtype'])
     n = int(np.prod(shape))
     raw = r.integers(1, 255, n * dt.itemsize, dtype=np.uint8)
+    if dt.byteorder == '>':
+        base = np.dtype(dt.str[1:])
+        if base.kind == 'f':
+            return (r.random(n) * 100).astype(dt).reshape(shape)
+        return r.integers(1, 255, n).astype(dt).reshape(shape) * (257 if base.itemsize > 1 else 1)
     if dt.kind in 'fc':
         # avoid NaN payloads being canonicalised anywhere: use small finite numbers
         a = (r.random(n * (2 if dt.kind == 'c' else 1)) * 100).astype('f8' if dt.itemsize in (8, 16) else 'f4')
